@@ -2502,6 +2502,8 @@ class Wallet(object):
                         change=change, purpose=purpose, path=newpath, parent_id=parent_id,
                         encoding=encoding, witness_type=witness_type, new_key_id=new_key_id,
                         cosigner_id=cosigner_id, network=network, session=self.session))
+                    # Keys created in bulk are wallet key objects like any other: their balance follows the wallet
+                    self._key_objects.update({new_keys[-1].key_id: new_keys[-1]})
                 self.session.commit()
 
         return new_keys
